@@ -87,6 +87,7 @@ void WorldQ::setup() {
   for (auto &o : plan->knobs["oracles_off"].a) oracles_off.insert(o.str());
   for (auto &o : plan->knobs["oracles"].a) oracles_on.insert(o.str());
 
+  for (auto &p : plan->knobs["control_raw"].o) k->put_file(home + "/control/" + p.first, p.second.str());
   logsink = k->new_sink("qmail-send-log");
   if (enabled("c15") || enabled("c16")) { if (!oracles_on.empty() || plan->knobs.getb("timing", false)) tg = make_time_ghost(this); }
 
